@@ -245,6 +245,8 @@ def run_case(ctx, case):
     for c in meta["commands"]:
         if rng.random() < 0.5:
             c["args"]["Metadata"] = {"DisplayName": "Layer " + c["result"], "Description": "x, y: [z] # not a comment", "k": "1"}
+        elif rng.random() < 0.3:
+            c["args"]["Metadata"] = []         # an empty metadata list
     variants.append(("metadata", models.permuted(meta, rng)))
     extra = copy.deepcopy(model)
     datanames = [c["result"] for c in model["commands"] if c["cmd"] in ref.MODELS or c["cmd"] == "EEMSRead"]
